@@ -161,7 +161,45 @@ def form_cases(build):
             cases.append((f'B {K(a)} mul B {K(b)} mul form:{fid} enc', want, f'`{it.impl_header()}` on [{a}]B, [{b}]B'))
     return cases
 
+def const_cases(build):
+    from .poly import FIELDS
+    from .consts import SMALL_GEN, NBYTES
+    cases = []
+    def le64(v, n): return le(v, 8 * n)
+    for F in ('Fq', 'Fr', 'Fp'):
+        p = FIELDS[F]; n = 6 if F == 'Fp' else 4; nb = NBYTES[F]
+        s2 = ((p - 1) & -(p - 1)).bit_length() - 1; t = (p - 1) >> s2; g = SMALL_GEN[F]
+        cases += [(f'const:{F}::MODULUS_LIMBS', le64(p, n), f'{F}::MODULUS_LIMBS'), (f'const:{F}::MODULUS_MINUS_ONE_DIV_TWO_LIMBS', le64((p - 1) // 2, n), f'{F}::MODULUS_MINUS_ONE_DIV_TWO_LIMBS'),
+                  (f'const:{F}::TRACE_LIMBS', le64(t, n), f'{F}::TRACE_LIMBS'), (f'const:{F}::TRACE_MINUS_ONE_DIV_TWO_LIMBS', le64((t - 1) // 2, n), f'{F}::TRACE_MINUS_ONE_DIV_TWO_LIMBS'),
+                  (f'const:{F}::MODULUS_BIT_SIZE', str(p.bit_length()), f'{F}::MODULUS_BIT_SIZE'), (f'const:{F}::TWO_ADICITY', str(s2), f'{F}::TWO_ADICITY'),
+                  (f'const:{F}::MULTIPLICATIVE_GENERATOR', le(g, nb), f'{F}::MULTIPLICATIVE_GENERATOR'), (f'const:{F}::TWO_ADIC_ROOT_OF_UNITY', le(pow(g, t, p), nb), f'{F}::TWO_ADIC_ROOT_OF_UNITY'),
+                  (f'const:{F}::FIELD_SIZE_POWER_OF_TWO', le(pow(2, 8 * nb, p), nb), f'{F}::FIELD_SIZE_POWER_OF_TWO'), (f'const:{F}::ONE', le(1, nb), f'{F}::ONE'), (f'const:{F}::ZERO', le(0, nb), f'{F}::ZERO')]
+        if build == 'ark':
+            sq = f'ts {s2} QNR {le64((t - 1) // 2, n)}' if F != 'Fr' else None
+            cases.append((f'const:traits:{F}', None, f'trait constants of {F}'))
+    cases += [('const:Fp::QUADRATIC_NON_RESIDUE', le(FIELDS['Fp'] - 5, 48), 'Fp::QUADRATIC_NON_RESIDUE'), ('const:Fp::MINUS_ONE', le(FIELDS['Fp'] - 1, 48), 'Fp::MINUS_ONE')]
+    cases += [('const:ZETA', le(spec.ZETA), 'ZETA'), ('const:GENERATOR', le(8), 'GENERATOR'), ('const:IDENTITY', le(0), 'IDENTITY')]
+    if build == 'ark':
+        a, d = Q - 1, spec.Dd
+        cases += [('const:TE::COEFF_A', le(a), 'TE COEFF_A'), ('const:TE::COEFF_D', le(d), 'TE COEFF_D'),
+                  ('const:Mont::COEFF_A', le(2 * (a + d) * pow(a - d, -1, Q) % Q), 'Montgomery COEFF_A'), ('const:Mont::COEFF_B', le(4 * pow(a - d, -1, Q) % Q), 'Montgomery COEFF_B'),
+                  ('const:COFACTOR', le(1, 8), 'COFACTOR'), ('const:COFACTOR_INV', le(1), 'COFACTOR_INV'), ('const:Group::generator', le(8), 'Group::generator'),
+                  ('const:AffineRepr::generator', le(8), 'AffineRepr::generator'), ('const:AffineRepr::zero', le(0), 'AffineRepr::zero')]
+    return [c for c in cases if c[1] is not None]
+
+def const_semantic_cases(build):
+    """behavioural witnesses for constants that the API does not expose directly (square roots use SQRT_PRECOMP etc.)"""
+    cases = []
+    if build == 'ark':
+        for F, f in (('Fq', 'q'), ('Fr', 'r'), ('Fp', 'p')):
+            for v in (4, 9, 2, 3, 5, 1234567):
+                from .poly import FIELDS
+                pm = FIELDS[F]; sq = v * v % pm
+                cases.append((f'{f}.push:{le(sq, 48 if F == "Fp" else 32)} {f}.sqrt', 'some sq_ok=true', f'{F}::sqrt of the square {v}^2'))
+    return cases
+
 BATTERIES = {
+    'C17': lambda b: const_cases(b) + const_semantic_cases(b),
     'C02': lambda b: decode_cases(b) + funnel_cases(b),
     'C03': lambda b: encode_cases(b),
     'C04': lambda b: group_cases(b),
